@@ -347,6 +347,12 @@ func (w *Writer) OffsetForFrame(idx uint64) (uint32, error) {
 }
 
 func (w *Writer) appendEntry(e types.LogEntry) error {
+	// Refuse anything the reader would later refuse to read back (it treats a
+	// frame length above MaxEntrySize as corruption).
+	if len(e.Data) > MaxEntrySize {
+		return ErrTooBig
+	}
+
 	offsets := w.getOffsets()
 
 	// Check the invariant that this entry is the next one we expect otherwise our
